@@ -343,6 +343,11 @@ func loopSchedules(r *core.Rng, s *gen.Stream, n int, pausey bool) []iosim.Sched
 		}
 		out = append(out, iosim.Random(r, ln, o))
 	}
+	// pauses after exactly one buffer-full / quarter buffer (a reader that takes a
+	// full Read for "more is coming" shows here)
+	if ln > 4096 {
+		out = append(out, iosim.Fixed(16384, ln, false), iosim.Fixed(4096, ln, true))
+	}
 	// pauses exactly at every line end (the producer writes line by line)
 	var st []iosim.Step
 	for _, l := range s.Lines {
